@@ -250,15 +250,13 @@ func (s *Solver) Values(ts []*Term) ([]string, error) {
 			res[i] = s.P.constStr(t)
 			continue
 		}
-		if !s.P.IsEmitted(t) && t.Op == OVar && t.Sort.K == KInt && s.P.Enc == EncInt {
-			// an undeclared variable is unconstrained; its declaration would add a range assertion
+		if !s.P.IsEmitted(t) {
+			// nothing may be declared or defined inside the query scope (it is popped afterwards):
+			// an undeclared variable is unconstrained, other terms are evaluated by the caller
 			res[i] = ""
 			continue
 		}
 		r := s.P.Ref(t)
-		if defs := s.P.Take(); defs != "" {
-			s.send(defs)
-		}
 		s.send("(get-value (" + r + "))\n")
 		v, err := s.readSexp()
 		if err != nil {
